@@ -50,6 +50,7 @@ import textwrap
 import time
 import traceback
 from concurrent.futures import ProcessPoolExecutor
+import pathlib
 from pathlib import Path
 from urllib.parse import quote as _quote, unquote as _unquote
 
@@ -180,6 +181,7 @@ def micro_stream(drv, rng, n, rep):
             exp.append(["ok"] + impl)
     finally:
         shutil.rmtree(tmp, ignore_errors=True)
+    pagename_requests(rng, max(120, n // 4), reqs, exp)
     got = drv.batch(reqs)
     bad = 0
     for r, e, g in zip(reqs, exp, got):
@@ -188,6 +190,57 @@ def micro_stream(drv, rng, n, rep):
             rep.tie_broken(f"correspondence micro/{r[0]}: model {g} vs implementation {e} on {r[1:]!r}",
                            {"stream": "micro", "request": r, "impl": e, "model": g})
     return len(reqs), bad
+
+
+def pagename_requests(rng, n, reqs, exp):
+    """Round 6: what a static page is called.  (a) `PurePath(name).with_suffix(".html")` of the real pathlib vs the model's
+    `withSuffixHtml` on random names over an alphabet rich in dots; (b) the real `PageNode.path` / `PageNode.url` properties,
+    a real `PagetreePage` (`outfile`, `loc`) and the real registered `relurl` filter applied to the URL of the page from a
+    page in another directory vs `c09.pagename` (regenerated namings) on random (location, stem, linking directory)."""
+    from types import SimpleNamespace
+    import ford.output as fo
+    from ford.pagetree import PageNode
+    from ford.settings import EntitySettings
+
+    def stem_of():
+        if rng.random() < 0.3:
+            return rng.choice(c09_gen.PAGE_DOTTED_LEAF_NAMES + c09_gen.PAGE_LEAF_NAMES + ["index"])
+        return "".join(rng.choice("ab.-1. ") for _ in range(rng.randint(1, 7)))
+
+    for _ in range(n):
+        nm = stem_of()
+        if nm in (".", "") or "/" in nm:
+            continue
+        try:
+            want = str(pathlib.PurePosixPath(nm).with_suffix(".html"))
+        except ValueError:
+            continue
+        reqs.append(["c09.withsuffix", nm])
+        exp.append([want])
+
+    class _Node:
+        path = PageNode.path
+        url = PageNode.url
+
+        def __init__(self, loc, stem, base):
+            self.location, self.filename, self.base_url = Path(loc), Path(stem), Path(base)
+            self.copy_subdir, self.files, self.meta, self.obj, self.name = [], [], EntitySettings(), "page", stem
+
+    dirs = ["sub", "v1.0", "page", "deeper", "rel.2", "a b"]
+    relurl = fo.env.filters["relurl"]
+    out = Path("/o")
+    for _ in range(max(30, n // 3)):
+        stem = stem_of()
+        if stem.startswith(".") or stem.strip() != stem or stem in ("", ".", ".."):
+            continue
+        loc = "/".join(rng.choice(dirs) for _ in range(rng.randint(0, 3))) or "."
+        frm = rng.choice(["", "proc", "lists", "page", "page/" + "/".join(rng.choice(dirs) for _ in range(rng.randint(1, 3)))])
+        node = _Node(loc, stem, out)
+        pg = fo.PagetreePage({"output_dir": out, "page_dir": Path("/src/pages"), "relative": True},
+                             SimpleNamespace(settings=SimpleNamespace(project_url=out)), node)
+        link = relurl(str(node.url), out / frm / "x.html")
+        reqs.append(["c09.pagename", loc, stem, frm or "."])
+        exp.append([os.path.relpath(node.url, out), os.path.relpath(pg.outfile, out), str(pg.loc), link])
 
 
 # ------------------------------------------------------------------ one site (runs in a worker process)
@@ -599,12 +652,15 @@ def observe_pages(doc, out: Path, site):
             src = Path(page_dir) / o.location / it
             tgt = Path(os.path.normpath(out_dir / "page" / o.location / it))
             if os.path.isabs(its):
-                abs_items.setdefault("page/" + (loc + "/" if loc else "") + str(o.filename) + ".html", []).append(os.path.basename(its))
+                abs_items.setdefault(os.path.relpath(pg.outfile, out_dir).replace(os.sep, "/"), []).append(os.path.basename(its))
             if out_dir not in tgt.parents or not src.is_dir() or os.path.isabs(its) or "/" in its.strip("/") or its in (".", ".."):
                 continue
             items.append({"name": its, "files": sorted(str(f.relative_to(src)).replace(os.sep, "/") for f in src.rglob("*") if f.is_file())})
         nodes.append({"loc": loc, "stem": str(o.filename), "copy_subdir": [str(x) for x in o.copy_subdir],
-                      "own": bool(getattr(o.meta, "copy_subdir", None)), "items": items, "files": [str(x) for x in o.files]})
+                      "own": bool(getattr(o.meta, "copy_subdir", None)), "items": items, "files": [str(x) for x in o.files],
+                      # round 6: what the three places really call the page (relative to base_url / the output directory)
+                      "url": os.path.relpath(o.url, o.base_url).replace(os.sep, "/"),
+                      "outfile": os.path.relpath(pg.outfile, out_dir).replace(os.sep, "/"), "search_loc": str(pg.loc).replace(os.sep, "/")})
     return nodes, sorted(f for f in site.files if f.startswith("page/")), abs_items
 
 
@@ -717,7 +773,10 @@ def run_site(args):
         res["page_tree_hist"] = {"sites with two page directories of the same name": int(any(len(v) > 1 for v in pnames.values())),
                                  "sites with a page directory named like a directory of the output": int(any(
                                      x in pnames for x in ("module", "lists", "proc", "doc", "media", "src") ) or len(pnames.get("page", ())) > 1),
-                                 "sites with static pages": int(bool(pdirs))}
+                                 "sites with static pages": int(bool(pdirs)),
+                                 "sites with a dot in the stem of a page file": int(any("." in n["stem"] for n in res["page_nodes"])),
+                                 "sites with a dot in the name of a page directory": int(any("." in n["loc"] for n in res["page_nodes"])),
+                                 "page files with a dot in the stem": sum(1 for n in res["page_nodes"] if "." in n["stem"])}
         # ---------- property oracle
         fails = site.failures()
         ctx = {"out": str(out), "cwd": cwd, "opts": P["opts"], "shape": shape or c09_gen.shape_counts(P),
@@ -1024,6 +1083,18 @@ def compare_site(r, drv_answers, rep, stats):
                            {"stream": "site", "case": k, "seed": r.get("seed"), "model_only": sorted(model_files - impl_files)[:20],
                             "impl_only": sorted(impl_files - model_files)[:20],
                             "pages": [{x: n[x] for x in ("loc", "stem", "copy_subdir", "files")} for n in r["page_nodes"]][:12]})
+    # --- round 6: what every real PageNode / PagetreePage of the run calls its page (link URL, file written, search index URL)
+    #     vs the model's names under the regenerated namings
+    for n, ans in zip(r.get("page_nodes", []), drv_answers.get("pagename", [])):
+        stats["page_names"] += 1
+        if "." in n["stem"]:
+            stats["page_names_dotted"] += 1
+        impl = [n.get("url"), n.get("outfile"), n.get("search_loc")]
+        if list(ans[:3]) != impl:
+            stats["bad"] += 1
+            rep.tie_broken(f"correspondence site/pagename: static page {n['loc']}/{n['stem']}.md: model (url, outfile, search url) {list(ans[:3])} "
+                           f"vs implementation {impl} (case {k})",
+                           {"stream": "site", "case": k, "seed": r.get("seed"), "page": {x: n[x] for x in ("loc", "stem")}, "model": list(ans[:3]), "impl": impl})
     # --- assets: the <link>/<script>/<form> URLs of the sampled pages are the asset links the model emits for the real
     #     settings dictionary; the asset files in the output are the ones the model of Documentation.writeout writes
     if r.get("asset_env") is not None and "assetwritten" in drv_answers:
@@ -1203,6 +1274,12 @@ def run(tier: str, seed: int, replay: str | None = None) -> int:
     if pc[2] != "1":
         rep.tie_broken(f"PagetreePage.writeout: the `copy_subdir` loop runs `{pc[0]}`, the `files` loop `{pc[1]}`: a page's own copy_subdir "
                        f"directories / the files of a page directory are not copied for every page that links them")
+    pn = drv.call("c09.pagenamecheck")
+    if pn[3] != "1":
+        rep.tie_broken(f"static pages: PageNode.url names the page's file by `{pn[0]}`, PagetreePage.outfile by `{pn[1]}`, PagetreePage.loc "
+                       f"(search index) by `{pn[2]}`: for a page file with a dot in its stem the links FORD writes and the file it writes "
+                       f"disagree (PageName.tablesOk = false on the probed namings)")
+    table_variants.update({"page_naming_url": pn[0], "page_naming_outfile": pn[1], "page_naming_search": pn[2]})
     table_variants.update({"copy_subdir_loop_guard": pc[0], "page_files_loop_guard": pc[1], "asset_links_failing_check": failing_assets})
     # ---- state that outlives one text / one page: the Markdown converter, a cache in front of the relurl filter
     mc = drv.call("c09.mdcheck")
@@ -1244,7 +1321,7 @@ def run(tier: str, seed: int, replay: str | None = None) -> int:
             "aborted_runs": {}, "location": {}, "doc_style": {}, "summaries": {}, "assets": {}, "footnotes": {},
             "page_tree": {}}
     stats = {"geturl": 0, "nav_pages": 0, "bad": 0, "strlink": 0, "str_exc": 0, "list_members": 0, "readmore": 0,
-             "page_copies": 0, "page_copy_files": 0, "asset_pages": 0, "asset_files": 0, "aliases": 0, "footnotes": 0}
+             "page_copies": 0, "page_copy_files": 0, "page_names": 0, "page_names_dotted": 0, "asset_pages": 0, "asset_files": 0, "aliases": 0, "footnotes": 0}
     n_links = n_internal = 0
     distinct = set()
     samples = []
@@ -1299,6 +1376,9 @@ def run(tier: str, seed: int, replay: str | None = None) -> int:
                     q += [it["name"], str(len(it["files"]))] + it["files"]
                 q += [str(len(n["files"]))] + n["files"]
                 reqs.append(q)
+            index.append((r["k"], "pagename", len(reqs), len(r.get("page_nodes", []))))
+            for n in r.get("page_nodes", []):
+                reqs.append(["c09.pagename", n["loc"] or ".", n["stem"], "."])
             if r.get("fn_seq"):
                 index.append((r["k"], "footnotes", len(reqs), 1))
                 q = ["c09.footnotes"]
@@ -1313,7 +1393,7 @@ def run(tier: str, seed: int, replay: str | None = None) -> int:
         _tick(f"model batch ({len(reqs)} requests)")
         by_site: dict[int, dict] = {}
         for k, name, start, n in index:
-            by_site.setdefault(k, {})[name] = answers[start] if name not in ("geturl", "strlink", "readmore", "pagecopy") else answers[start:start + n]
+            by_site.setdefault(k, {})[name] = answers[start] if name not in ("geturl", "strlink", "readmore", "pagecopy", "pagename") else answers[start:start + n]
         # ---- evaluate
         for r in results:
             k = r["k"]
@@ -1411,14 +1491,15 @@ def run(tier: str, seed: int, replay: str | None = None) -> int:
     n_ok = sum(1 for r in results if r.get("rc") == 0)
     rep.coverage.update(
         evaluations=ev_micro + len(results) + stats["geturl"] + stats["strlink"] + stats["nav_pages"] + stats["readmore"]
-        + stats["page_copies"] + stats["asset_pages"] + stats["footnotes"],
+        + stats["page_copies"] + stats["asset_pages"] + stats["footnotes"] + stats["page_names"],
         distinct_nontrivial=len(distinct),
         rule="a site case = generated project (shape x options x static pages x doc links) run through ford end-to-end; "
              "distinct by digest of (entity counts as FORD sees them, option combination, page tree present, how the project directory "
              "is reached, icon type / MathJax configuration / kinds of files next to the static pages); all of them reach the mechanism",
         samples=samples,
         traces_validated_against_impl=ev_micro + stats["geturl"] + stats["strlink"] + stats["nav_pages"] + stats["readmore"] + n_ok
-        + stats["page_copies"] + stats["asset_pages"] + stats["footnotes"],
+        + stats["page_copies"] + stats["asset_pages"] + stats["footnotes"] + stats["page_names"],
+        static_pages_compared_names=stats["page_names"], static_pages_with_dotted_stem_compared=stats["page_names_dotted"],
         static_pages_compared_copies=stats["page_copies"], files_below_page_compared=stats["page_copy_files"],
         pages_compared_asset_links=stats["asset_pages"], asset_files_compared=stats["asset_files"],
         correspondence_disagreements=stats["bad"] + bad_micro,
